@@ -376,6 +376,31 @@ panics.FACTS["c27.fill_post"] = fill_post
 panics.FACTS["c27.no_ref_conflict"] = no_ref_conflict
 
 
+def shrink_keeps_invariant(prog):
+    """struct invariant pos <= buf.len(): wherever the buffer is shrunk (set_len / clear / truncate),
+    every path from there to the function's return stores 0 into `pos`."""
+    out = []
+    for k, f in sorted(scope(prog).items()):
+        for bi, t in f.calls():
+            c = callee_of(t)
+            if f.is_cleanup(bi) or not c or c.get("name") not in ("set_len", "clear", "truncate") or c["krate"] not in ("core", "alloc", "std"):
+                continue
+            sl = f.slice_of_operand(t["a"][0], at=(bi, f.INF))
+            if not any("buf" in ir.place_fields(pl) for pl in sl["places"]):
+                continue
+            resets = set()
+            for b2, blk in enumerate(f.blocks):
+                for s in blk["s"]:
+                    if s["k"] == "assign" and ir.place_fields(s["p"]) == ["pos"] and s["rv"][0] == "use":
+                        cc = op_const(s["rv"][1])
+                        if cc is not None and str(cc.get("v")) == "0":
+                            resets.add(b2)
+            rets = f.return_blocks()
+            ok = "t" in t and not any(r in f.reach([t["t"]], cut_blocks=resets) for r in rets) or bi in resets
+            out.append((f, t, ok))
+    return out
+
+
 def run(ctx):
     ctx.rule("R1", "no undischarged panic / abort site reachable from the ByteReader methods of ReadAdapter (A5)", 15)
     ctx.rule("R2", "buffer_at_least(count) returns Ok only past `count == 0 || buffer().len() >= count`, count never reassigned", 1)
@@ -409,5 +434,14 @@ def run(ctx):
             ok, how = eof_justified(c.p, f, bi)
             c.ob("R5", "eof-only-when-stream-ended", ok, how, f, s["sp"]["at"])
     ctx.guard("R5", r5)
+    ctx.rule("R6", "pos <= buf.len(): every shrink of the adapter's buffer (set_len / clear / truncate) is followed on every path to the return by pos = 0", 1)
+
+    def r6(c):
+        for f, t, ok in shrink_keeps_invariant(c.p):
+            c.ob("R6", "shrink-resets-pos", ok,
+                 "%s: the buffer is shrunk and pos is reset to 0 on every path to the return" % f.key.split("::")[-1] if ok else
+                 "%s shrinks the buffer but can return without resetting pos: pos may exceed buf.len(), the unread part is lost and later reads skip data or report end of input" % f.key.split("::")[-1],
+                 f, t["sp"]["at"])
+    ctx.guard("R6", r6)
     ctx.assume("std::io::BufReader::fill_buf / consume and RefCell behave as documented")
     ctx.assume("that the values returned equal SliceReader's for every chunking is a refinement between two stateful machines and is not decided")
